@@ -210,7 +210,11 @@ func runUnit(w *World, pk *Pkg, c *Contract) (res *UnitResult) {
 		// clause unit: the receiver of the enclosing method is non-nil; everything else is lazily havocked.
 		// A `return` inside the clause sets the function's results (`result`, `result1`, ... in postconditions; a
 		// path that leaves the clause without returning leaves them at their zero values).
-		e.bindResults(fr, decl, pk, st)
+		if c.Lit != nil {
+			e.bindResultsOf(fr, c.Lit.Type, pk, st)
+		} else {
+			e.bindResults(fr, decl, pk, st)
+		}
 		if decl.Recv != nil {
 			for _, f := range decl.Recv.List {
 				for _, id := range f.Names {
